@@ -46,6 +46,7 @@ def main():
     ap.add_argument("--json", action="store_true")
     ap.add_argument("--one", type=int, default=None, help="run only session index I and print its trace")
     ap.add_argument("--no-evidence", action="store_true")
+    ap.add_argument("--digests", type=int, default=None, help="print the trace digests of sessions 0..N-1 (determinism self-test)")
     a = ap.parse_args()
 
     from sim import session as S
@@ -67,6 +68,11 @@ def main():
     seed = a.seed if a.seed is not None else int(os.environ.get("VERIF_SEED", R.DEFAULT_SEED))
     n = a.sessions or int(os.environ.get("VERIF_SESSIONS", 0)) or R.SESSIONS[tier][prop]
     jobs = a.jobs or int(os.environ.get("VERIF_JOBS", 0)) or min(16, os.cpu_count() or 1)
+
+    if a.digests is not None:
+        batch = R.run_batch(prop, tier, seed, a.digests, jobs)
+        print(json.dumps({str(r["i"]): r.get("digest", "HARNESS-ERROR") for r in batch["recs"]}))
+        return 0
 
     if a.one is not None:
         from sim.rng import session_seed
